@@ -23,13 +23,14 @@ Definition models_sound_ground (c : mcase) : bool :=
 Definition domain_atoms (s : spec) : list string :=
   flat_map (fun c => map (fun v => atom_text (c_name c) [v]) (dom_terms (c_dom c))) (concepts s).
 Definition candidate_atoms (s : spec) : list string :=
-  flat_map (fun x => match x with
+  flat_map (fun x => match base_sentence x with
                      | SChoice c =>
                          let fes := match ch_foreach c with Some e => map (fun z => [z]) (dom_of s e) | None => [[]] end in
                          flat_map (fun fe => flat_map (fun x0 => map (fun y => atom_text (verb_pred (ch_verb c)) (fe ++ [x0; y])%list) (dom_of s (ch_obj c)))
                                                       (dom_of s (ch_subj c))) fes
                      | SDef subj _ newpred _ => map (fun x0 => atom_text newpred [x0]) (dom_of s subj)
-                     | SCons _ _ _ _ => [] end) (sentences s).
+                     | SCons _ _ _ _ => []
+                     | SOneOf _ _ _ => [] end) (sentences s).
 Fixpoint powerset (l : list string) : list (list string) :=
   match l with [] => [[]] | x :: r => let p := powerset r in (p ++ map (cons x) p)%list end.
 
